@@ -98,7 +98,12 @@ theorem bitsOnly_refs (T : Ty) (hb : bitsOnlyb T = true) (fuel : Nat) (v : Val) 
       simp only [encode] at he
       split at he <;> try (cases he; done)
     · rw [Builder.writeBits_ok he]; simp [Builder.app]
-    · rw [Builder.writeBits_ok he]; simp [Builder.app]
+    · unfold Builder.writeInt at he
+      split at he
+      · cases he
+      · split at he
+        · cases he
+        · rw [Builder.writeBits_ok he]; simp [Builder.app]
     · rw [Builder.writeBits_ok he]; simp [Builder.app]
     · split at he
       · rw [Builder.writeBits_ok he]; simp [Builder.app]
